@@ -19,6 +19,12 @@ CONSTANTS
   Exts = {"e1", "e2", "e3"}
   KeyChains = {"ethereum", "minter"}
   KeyVariants = {"good", "wrongtx", "wrongkey", "stale", "wrongval"}
+  DepAmts = {40}
+  DepFees = {0, 2}
+  WithKeysAndPrices = FALSE
+  FeePaids = {1}
+  StakePowers = {0, 1, 2, 3}
+  WatchNames = {}
   KeepHist = TRUE
   TwoLevel = TRUE
   EmitScripts = TRUE
